@@ -1,6 +1,7 @@
 import ast
 import keyword
 import re
+import unicodedata
 from collections.abc import MutableMapping
 from typing import Union
 
@@ -92,7 +93,11 @@ def sanitize_variable_name(
         template: A template to use for sanitized names, which is mainly useful
             if you need to undo the sanitization by string replacement.
     """
-    if name.isidentifier() or keyword.iskeyword(name):
+    if (
+        name.isidentifier()
+        and not keyword.iskeyword(name)
+        and unicodedata.normalize("NFKC", name) == name
+    ):
         return name
     if not name:
         from formulaic.errors import FormulaSyntaxError
@@ -100,9 +105,24 @@ def sanitize_variable_name(
         raise FormulaSyntaxError("Back-quoted variable names must not be empty.")
 
     # Compute recognisable basename
-    base_name = "".join([char if re.match(r"\w", char) else "_" for char in name])
-    if base_name[0].isdigit():
+    # (only characters that Python accepts in identifiers and does not rewrite
+    # when normalizing them are kept)
+    base_name = "".join(
+        [
+            char
+            if ("_" + char).isidentifier()
+            and unicodedata.normalize("NFKC", char) == char
+            else "_"
+            for char in name
+        ]
+    )
+    base_name = unicodedata.normalize("NFKC", base_name)  # (combining sequences)
+    if not base_name.isidentifier():
         base_name = "_" + base_name
+    if base_name == name or keyword.iskeyword(base_name):
+        # `name` cannot be used verbatim (e.g. it is a keyword), so make sure
+        # that its alias differs from it.
+        base_name += "_"
 
     # Verify new name is not in env already, and if not add a random suffix.
     new_name = template.format(base_name)
